@@ -1136,6 +1136,11 @@ class _MissingImportFinder:
                     # 'del x' without 'x' in current scope.  Should we warn?
                     continue
                 del scope[target.id]
+                # 'import foo.bar' is stored as 'foo' and 'foo.bar': they are
+                # all gone with 'foo'.
+                prefix = target.id + "."
+                for name in [k for k in scope if k.startswith(prefix)]:
+                    del scope[name]
             elif isinstance(target, ast.Attribute):
                 # 'del foo.bar.baz', 'del foo().bar', etc
                 # We ignore the 'del ...bar' part and just visit the
